@@ -44,13 +44,16 @@ TEMPLATES = {
     "set_attr_of_data": "{% set d.zz = 1 %}",
     "setblock_attr_of_data": "{% set d.zz %}v{% endset %}",
     "set_ns_attr": "{% set ns = namespace(a=items) %}{% set ns.b %}v{% endset %}{% set ns.c = d %}{{ ns.b }}{{ ns.a|length }}",
+    "ns_from_dict": "{% set ns = namespace(d) %}{% set ns.q = 1 %}{% set ns.k = 5 %}{{ ns.q }}{{ ns.k }}{{ d.k }}",
+    "ae_block": "{% autoescape true %}{{ s }}{{ 1 // z }}{% endautoescape %}{% set v %}{{ s }}{% endset %}[{{ v }}]{{ s }}",
     "libg": "{% macro gm() %}[{{ tg }}]{% endmacro %}{% set gv = 'v' ~ tg %}",
     "impg1": "{% import 'libg' as l %}{{ l.gm() }}{{ l.gv }}{{ tg }}",
     "impg2": "{% from 'libg' import gm, gv %}{{ gm() }}{{ gv }}{{ tg }}",
     "setattr": "{% set y = items %}{% set z = d %}{{ y|length }}{{ z.k }}{% for k, v in d|dictsort %}{{ k }}{{ v }}{% endfor %}",
 }
 POOL = ["imp", "fromctx", "ns", "loopstate", "cycler", "filters", "child", "macro", "setattr", "tojson_indent", "tojson",
-        "policies", "impg1", "impg2", "set_attr_of_data", "setblock_attr_of_data", "set_ns_attr"]
+        "policies", "impg1", "impg2", "set_attr_of_data", "setblock_attr_of_data", "set_ns_attr",
+        "ns_from_dict", "ae_block", "ae_block@raise"]
 # templates loaded with template-level globals (same names, different values)
 TEMPLATE_GLOBALS = {"impg1": {"tg": "one"}, "impg2": {"tg": "two"}}
 
@@ -70,14 +73,17 @@ class O:
 
 
 def make_data():
-    return {"x": "X", "items": [3, 1, 2], "d": {"k": 1, "j": [2, 3]}, "objs": [O(2), O(1)], "nested": [[1, 2], [3]]}
+    return {"x": "X", "s": "<s>", "z": 1, "items": [3, 1, 2], "d": {"k": 1, "j": [2, 3]}, "objs": [O(2), O(1)], "nested": [[1, 2], [3]]}
 
 
 _BC = {}
 
 
-def make_env(async_=False, memo=False):
+def make_env(async_=False, memo=False, autoescape=False):
     import jinja2
+
+    if async_ == "ae":  # third mode of the sequential part: sync environment with autoescape on
+        async_, autoescape = False, True
     from jinja2.bccache import BytecodeCache
 
     class MemCache(BytecodeCache):
@@ -90,7 +96,7 @@ def make_env(async_=False, memo=False):
         def dump_bytecode(self, bucket):
             _BC[bucket.key] = bucket.bytecode_to_string()
 
-    env = jinja2.Environment(loader=jinja2.DictLoader(dict(TEMPLATES)), enable_async=async_,
+    env = jinja2.Environment(loader=jinja2.DictLoader(dict(TEMPLATES)), enable_async=async_, autoescape=autoescape,
                              bytecode_cache=MemCache() if memo else None)
     env.globals["g"] = "G"
     env.globals["gl"] = [1, 2]
@@ -118,9 +124,13 @@ def snapshot(env, data, names):
 
 
 def render(env, name, data, async_):
+    if "@" in name:
+        # same template, data that makes it raise in the middle (inside its autoescape block)
+        name = name.split("@")[0]
+        data = dict(data, z=0)
     try:
         t = env.get_template(name, globals=TEMPLATE_GLOBALS.get(name))
-        if async_:
+        if async_ is True:
             return e4.run(t.render_async(**data))
         return t.render(**data)
     except Exception as e:  # noqa: BLE001
@@ -343,14 +353,15 @@ def run(ctx: core.Ctx):
         "functools.lru_cache (get_spontaneous_environment) is atomic under the GIL and is one step",
     ]
     depth = 2 if ctx.quick else 3
-    ctx.pmap(seq_shard, [(f, depth, a) for f in POOL for a in (False, True)])
+    ctx.pmap(seq_shard, [(f, depth, a) for f in POOL for a in (False, True, "ae")])
     pairs = list(itertools.combinations_with_replacement(POOL, 2))
     plan = []
     if ctx.quick:
         qpairs = [("imp", "imp"), ("imp", "fromctx"), ("fromctx", "fromctx"), ("imp", "child"), ("child", "child"),
                   ("ns", "loopstate"), ("cycler", "cycler"), ("filters", "filters"), ("filters", "setattr"), ("macro", "macro"),
                   ("loopstate", "loopstate"), ("imp", "filters"), ("ns", "ns"), ("macro", "setattr"), ("child", "fromctx"),
-                  ("impg1", "impg2"), ("impg1", "impg1"), ("tojson_indent", "tojson"), ("policies", "tojson")]
+                  ("impg1", "impg2"), ("impg1", "impg1"), ("tojson_indent", "tojson"), ("policies", "tojson"),
+                  ("ae_block", "ae_block"), ("ae_block", "ae_block@raise")]
         plan += [(pr, "warm-all", 1, None) for pr in qpairs]
         plan += [(pr, "cold-shared", 1, None) for pr in [("imp", "imp"), ("imp", "fromctx"), ("child", "child"), ("imp", "child"), ("impg1", "impg2")]]
     else:
